@@ -50,17 +50,27 @@ func referenceBuilt(c *vf.Ctx) {
 		iss := w.issuer[kind]
 		dR, dE := w.delegate[kind][0], w.delegate[kind][1]
 		imp := w.impostor[kind]
-		signers := []*ident{iss, dE, w.stranger[1], dR, imp}
-		certLists := [][]*ident{nil, {dE}, {dE, w.stranger[1]}, {w.stranger[1]}, {dR}, {w.stranger[1], dE}, {imp}}
+		type pair struct {
+			signer *ident
+			certs  []*ident
+		}
+		var pairs []pair
+		for _, signer := range []*ident{iss, dE, w.stranger[1], dR} {
+			for li, cl := range [][]*ident{nil, {dE}, {dE, w.stranger[1]}, {w.stranger[1]}, {dR}, {w.stranger[1], dE}} {
+				if signer == dR && li != 4 && li != 0 && !c.Thorough {
+					continue
+				}
+				pairs = append(pairs, pair{signer, cl})
+			}
+		}
+		pairs = append(pairs, pair{imp, []*ident{imp}}, pair{iss, []*ident{iss}}, pair{w.stranger[1], []*ident{iss}})
+		for _, l := range w.lookalike[kind] {
+			pairs = append(pairs, pair{l, []*ident{l}}, pair{l, []*ident{l, dE}})
+		}
 		for byKey := 0; byKey < 2; byKey++ {
-			for si, signer := range signers {
-				for li, cl := range certLists {
-					if signer == dR && li != 4 && li != 0 && !c.Thorough {
-						continue
-					}
-					if (signer == imp) != (li == 6) {
-						continue
-					}
+			for si, pr := range pairs {
+				signer, cl, li := pr.signer, pr.certs, len(pr.certs)
+				{
 					for nS := 1; nS <= 3; nS += 2 {
 						for k := 0; k < len(sts); k++ {
 							if !c.Thorough && k%4 != (si+li+byKey+nS)%4 {
